@@ -2053,6 +2053,10 @@ Lemma QcS_abs_def : forall x : QcS, sabs x = if sltb x s0 then - x else x.
 Proof.
   intro x. unfold sabs, sltb, sopp, s0; simpl. unfold qc_abs, qc_ltb. simpl. rewrite Z.mul_1_r. reflexivity.
 Qed.
+Local Close Scope Qc_scope.
+Local Close Scope Q_scope.
+Local Open Scope nat_scope.
+Local Open Scope S_scope.
 
 (* ------------------------------------------------------------------ smoothed_aggr_emin: the filtered matrix *)
 Section EminFilter.
